@@ -96,9 +96,70 @@ def gen_calls(tier, seed):
     return calls
 
 
+def exact_sequences(rep, tier, tags):
+    """SegnoSA.tla: the Structured Append machine; design run (C08 invariants through the reference decoder) and exact conformance:
+    every vector of the design run is executed with make_sequence and all symbol matrices must equal a behaviour of the machine"""
+    import json
+    from . import props_sym
+    cfg = 'SegnoSA_quick.cfg' if tier == 'quick' else 'SegnoSA_thorough.cfg'
+    out, st = common.run_tlc('MC_SegnoSA', cfg=cfg, workers=common.NCPU, timeout=6000, xmx='12g')
+    rep.add_design('MC_SegnoSA', cfg, out, st, 'Structured Append machine (normalise, prepare, single-symbol shortcut, split by estimate / by count, '
+                   'version for the longest chunk, per-symbol boost and encoding): invariants C08_Count, C08_Version, C08_EachValid, C08_Headers, '
+                   'C08_Reassembly, C07_SeqMode, C05_SeqLevel, C13_SeqTail evaluated with the reference decoder on every returned sequence')
+    seen = {}
+    for v in common.parse_vectors(out):
+        seen.setdefault(json.dumps([v['msg'], v['q']], sort_keys=True), v)
+    common.use_repo()
+    obs = []
+    for key, v in sorted(seen.items()):
+        q, m = v['q'], v['msg']
+        content = bytes(m['bytes']) if m['enc'] == 'l1' else bytes(m['bytes']).decode('utf-8')
+        kw = {'boost_error': q['boost']}
+        if q['version'] != 99:
+            kw['version'] = T.version_name(q['version']) if q['version'] < 1 else q['version']
+        if q['count'] != -1:
+            kw['symbol_count'] = q['count']
+        if q['error'] != '-':
+            kw['error'] = q['error']
+        if q['mode'] != 'none':
+            kw['mode'] = q['mode']
+        if q['eci']:
+            kw['eci'] = True
+        c = call('make_sequence', content, **kw)
+        outcome, _, syms = symobs.execute(c, time_limit=300)
+        status = 'ok' if outcome['status'] == 'ok' else ('ValueError' if outcome.get('exc') != 'DataOverflowError' and 'ValueError' in outcome.get('mro', [])
+                                                         else outcome.get('exc', 'error'))
+        obs.append({'_call': c, 'msg': m, 'q': q, 'status': status, 'syms': [{'matrix': s['matrix']} for s in (syms or [])], '_cost': 1})
+    rep.evaluations += len(obs)
+    verdicts, st = props_sym.validate_all_branches(rep, obs, module='Trace_SegnoSA', tag='segnosa')
+    rep.add_trace_stats(st, len(obs))
+    n_equal = n_dev = n_refused = n_overfull = 0
+    for o in obs:
+        branches = verdicts.get(o['tid'], [])
+        good = [b for b in branches if not b['fails']]
+        if good:
+            n_equal += any(b['facts']['equal'] for b in good)
+            n_refused += any(b['facts']['st'] == 'done' for b in good)
+            n_overfull += all(b['facts']['st'] == 'returned_overfull' for b in good)
+            n_dev += all(b['devs'] for b in good)
+            rep.keys.add(('XSA', o['q']['mode'], o['q']['version'], o['q']['count'], o['q']['error'], o['q']['eci'], len(o['msg']['bytes'])))
+            continue
+        b = branches[0] if branches else {'fails': [['SPEC', 'no_verdict']], 'facts': {}}
+        mine = sorted(c for (p, c) in b['fails'] if p in tags or p == 'SPEC')
+        if any(p in tags for (p, c) in b['fails']) or all(p == 'SPEC' for (p, c) in b['fails']):
+            rep.violation({'kind': 'xsa', 'module': 'props_seq', 'call': o['_call'], 'failing_clauses': mine, 'props': sorted(tags), 'all_fails': b['fails']},
+                          f"{engine.brief_call(o['_call'])}: differs from every behaviour of SegnoSA.tla; fails {b['fails']}")
+        else:
+            rep.notes.setdefault('exact_sequence_mismatches_attributed_to_other_properties', []).append(
+                {'call': engine.brief_call(o['_call']), 'fails': b['fails']})
+    rep.notes['exact_sequences'] = {'vectors': len(obs), 'all_matrices_equal_to_a_specification_behaviour': n_equal, 'refusals_agree': n_refused,
+                                    'explained_only_by_Dev_SeqEstimateOnly': n_overfull, 'explained_only_via_a_named_deviation': n_dev}
+
+
 def run_c08(rep, tier):
+    exact_sequences(rep, tier, {'C08', 'C14'})      # make_sequence has no eci parameter: the machine's eci branch is not driven
     calls = gen_calls(tier, common.seed())
-    rep.evaluations = len(calls)
+    rep.evaluations += len(calls)
     with mp.get_context('fork').Pool(common.NCPU) as pool:
         obs = pool.map(seq_observation, calls, chunksize=max(1, len(calls) // 256))
     ok = [o for o in obs if o['outcome']['status'] == 'ok']
